@@ -1,5 +1,6 @@
 import RactorModel.Model.Admission
 import RactorModel.Model.StopPorts
+import RactorModel.Model.AdmissionMeasure
 import Driver.Common
 
 /-! Driver for the `Admission` model (C02, C07).
@@ -105,7 +106,7 @@ def admOps (l : List XOp) : List Op :=
 def b01 (b : Bool) : String := if b then "1" else "0"
 
 def showRes : Res → String
-  | .ok => "ok" | .sendErr => "sendErr" | .invalidType => "invalidType" | .drainErr => "drainErr"
+  | .ok => "ok" | .sendErr b => s!"sendErr({b})" | .invalidType => "invalidType" | .drainErr => "drainErr"
 def showKind : RKind → String
   | .send => "send" | .drain => "drain" | .bad => "bad"
 def showRet (r : Ret) : String := s!"ret {showKind r.kind} {r.id} {showRes r.res}"
@@ -211,6 +212,12 @@ structure St where
   /-- model and implementation already disagreed in this case: the rest of the case is not
   compared any more (one DIFF per case), the oracle still judges the implementation -/
   diverged : Bool := false
+  /-- wave 2: step budget of the case = the ranking measure of its initial model state (`mu (init progs)`,
+  theorem `C07.no_livelock_under_any_schedule`: no schedule has more effective steps) + slack for the
+  port requests, which are not steps of the admission model -/
+  budget : Nat := 0
+  /-- worker steps the implementation has taken in this case -/
+  nsteps : Nat := 0
   deriving Inhabited
 
 instance : Inhabited Case := ⟨{}⟩
@@ -226,9 +233,22 @@ def parseRets : List String → List (String × Nat × String)
 
 def parseKind? : String → Option RKind
   | "send" => some .send | "drain" => some .drain | "bad" => some .bad | _ => none
-def parseRes? : String → Option Res
-  | "ok" => some .ok | "sendErr" => some .sendErr | "invalidType" => some .invalidType
-  | "drainErr" => some .drainErr | _ => none
+/-- `sendErr(<back>)`: `Err(MessagingErr::SendErr(m))`, `<back>` = the id of the message `m` that the
+real code handed back inside the error -/
+def parseRes? (s : String) : Option Res :=
+  match s with
+  | "ok" => some .ok | "invalidType" => some .invalidType | "drainErr" => some .drainErr
+  | _ =>
+    match s.splitOn "(" with
+    | ["sendErr", rest] =>
+      (match rest.splitOn ")" with
+       | [n, ""] => n.toNat?.map Res.sendErr
+       | _ => none)
+    | _ => none
+
+/-- the result string is a `SendErr` (whatever message it carries) -/
+def isSendErrS (s : String) : Bool :=
+  match parseRes? s with | some (.sendErr _) => true | _ => false
 
 /-- Oracle at the end of a case (all workers finished, the receiver ran until it blocked), on the
 implementation's observations only. The state clauses are `Admission.Obs.violations` — the function
@@ -287,7 +307,10 @@ def oracleStress (withDrain withStop : Bool) (rs : List SRec) (handled : List Na
   let drained := (sup.filter (· == "Terminated:Drained")).length
   (if nodupNat handled then [] else ["handled-twice"]) ++
   (if handled.all (fun i => oks.any (·.id == i)) then [] else ["handled-without-ok"]) ++
-  (if rs.all (fun r => r.res == "ok" || r.res == "sendErr") then [] else ["wrong-return"]) ++
+  (if rs.all (fun r => r.res == "ok" || isSendErrS r.res) then [] else ["wrong-return"]) ++
+  -- C07 (2): a rejected send hands back exactly its own message (`Ret.backBad` on free-running records)
+  (if rs.all (fun r => match parseRes? r.res with | some (.sendErr b) => b == r.id | _ => true) then []
+    else ["handed-back-other-message"]) ++
   (if withStop || oks.all (fun r => handled.contains r.id) then [] else ["ok-not-handled"]) ++
   (if oks.all (fun a => oks.all (fun b =>
       !(a.t1 < b.t0) ||
@@ -296,7 +319,7 @@ def oracleStress (withDrain withStop : Bool) (rs : List SRec) (handled : List Na
          | none, some _ => false
          | _, _ => true))) then [] else ["order"]) ++
   (match drain with
-   | some (_, d1) => if rs.all (fun r => !(d1 < r.t0) || r.res == "sendErr") then [] else ["admitted-after-close"]
+   | some (_, d1) => if rs.all (fun r => !(d1 < r.t0) || isSendErrS r.res) then [] else ["admitted-after-close"]
    | none => []) ++
   (if drained ≤ 1 then [] else ["drained-twice"]) ++
   (if !withDrain || withStop || (drained == 1 && exited) then [] else ["drain-never-finishes"]) ++
@@ -356,7 +379,8 @@ def step1 (st : St) (op impl : String) : St × StepOut :=
     let g := init (ps ++ List.replicate h [Op.send [] false false])
     let st' : St := { g := g, c := { line := 0 }, exitReason := "-", diverged := false, workers := ps.length,
                       tops := xs, ctl := xs.map (fun _ => none), serNow := xs.map (fun _ => false),
-                      badNow := xs.map (fun _ => false) }
+                      badNow := xs.map (fun _ => false),
+                      budget := mu g + 8 * ((xs.map List.length).foldl (· + ·) 0) + 64 }
     let ats := ",".intercalate ((List.range ps.length).map (threadAtX st'))
     (st', { model := s!"ok at={ats}" })
   | "step" :: tid :: point :: opt =>
@@ -544,10 +568,21 @@ def step1 (st : St) (op impl : String) : St × StepOut :=
     let orc := oracleStress (flag "drain") (flag "stop") rs handled drain sup exited ++ portOrc
     -- no model replay: free-running threads are judged by the oracle only
     (st, { model := impl, oracle := orc, nontrivial := flag "drain" && rs.any (·.res != "ok") && rs.any (·.res == "ok") })
+  | "budget" :: _ =>
+    -- the harness gave up on a case whose threads kept taking steps
+    (st, { model := impl, oracle := ["no-progress-within-the-measure"] })
   | _ => (st, { model := "bad-op" })
 
 def step (st : St) (op impl : String) : St × StepOut :=
   let (st', out) := step1 st op impl
+  -- wave 2, C07 "a drain never leaves the actor running forever" / lock-freedom on the implementation's
+  -- own trace: the real threads of a case take at most `mu (init progs)` steps (+ port requests)
+  let (st', out) :=
+    if op.startsWith "step " then
+      let n := st'.nsteps + 1
+      ({ st' with nsteps := n },
+        if n == st'.budget + 1 then { out with oracle := out.oracle ++ ["no-progress-within-the-measure"] } else out)
+    else (st', out)
   if st.diverged && !(op.startsWith "case ") && !(op.startsWith "stress ") then (st', { out with model := impl })
   else if out.model != impl then ({ st' with diverged := true }, out)
   else (st', out)
